@@ -69,6 +69,18 @@ func buildMenuWorld(layout nodeLayout, menu []menuItem, pick []int) *world.World
 	b.GQueue("dept", "", -1, -1, 1).GQueue("qa", "dept", 1, -1, 1).GQueue("qb", "dept", 1, -1, 1)
 	for i, mi := range pick {
 		it := menu[mi]
+		pods := make([]world.PodSpec, len(it.pods))
+		copy(pods, it.pods)
+		for pi := range pods {
+			if len(pods[pi].Groups) > 0 { // explicit shared groups are per workload instance
+				gs := []string{}
+				for _, g := range pods[pi].Groups {
+					gs = append(gs, fmt.Sprintf("w%d-%s", i, g))
+				}
+				pods[pi].Groups = gs
+			}
+		}
+		it.pods = pods
 		b.Workload(world.WL{Name: fmt.Sprintf("w%d", i), Queue: it.queue, PC: it.pc, MinMember: it.min, Pods: it.pods})
 	}
 	return b.Done()
